@@ -490,6 +490,44 @@ def sort_grid(tier):
                     if got != model:
                         fails.append(rec('sort(key=%s, reverse=%r) on %r gives %r, list.sort gives %r' % (
                             kname, rev, list(vals), got, model), history=['sort-grid']))
+            # reverse(), then the operations that walk the members: index (first position, windows), count, a stable sort
+            n += 1
+            s = univ.SequenceOf(componentType=univ.Integer())
+            s.extend(vals)
+            model = list(vals)
+            try:
+                s.reverse()
+                model.reverse()
+                why = None
+                if [int(x) for x in s] != model:
+                    why = 'reverse() gives %r' % [int(x) for x in s]
+                for v in sorted(set(vals)):
+                    if why is None and s.index(v) != model.index(v):
+                        why = 'after reverse(), index(%d) is %d, list gives %d' % (v, s.index(v), model.index(v))
+                    if why is None and s.count(v) != model.count(v):
+                        why = 'after reverse(), count(%d) is %d' % (v, s.count(v))
+                    for lo in range(L):
+                        try:
+                            want = model.index(v, lo, L)
+                        except ValueError:
+                            want = None
+                        try:
+                            got = s.index(v, lo, L)
+                        except Exception:
+                            got = None
+                        if why is None and got != want:
+                            why = 'after reverse(), index(%d, %d, %d) is %r, list gives %r' % (v, lo, L, got, want)
+                if why is None:
+                    s.sort(key=lambda x: int(x) // 2)
+                    model.sort(key=lambda x: x // 2)
+                    if [int(x) for x in s] != model:
+                        why = 'reverse() then a stable sort by x // 2 gives %r, list gives %r' % ([int(x) for x in s], model)
+                if why:
+                    fails.append(rec('%s (on %r)' % (why, list(vals)), history=['sort-grid', 'reverse'], container='SequenceOf',
+                                     op='reverse'))
+            except Exception as e:
+                fails.append(rec('reverse grid on %r raised %s: %s' % (list(vals), type(e).__name__, str(e)[:80]),
+                                 history=['sort-grid', 'reverse']))
     return fails, n
 
 
@@ -605,6 +643,51 @@ def clone_grid(tier):
     return fails, n
 
 
+def any_collection_clone():
+    """a SEQUENCE OF / SET OF whose component type is the scalar ANY accepts constructed values: its deep clone owns its
+    members -- changing a member of the clone leaves the original alone, and the other way round"""
+    from pyasn1.type import univ, namedtype
+    fails, n = [], 0
+    rec_t = univ.Sequence(componentType=namedtype.NamedTypes(namedtype.NamedType('a', univ.Integer()),
+                                                             namedtype.OptionalNamedType('b', univ.Integer())))
+    for cls in (univ.SequenceOf, univ.SetOf):
+        for member in ('record', 'collection', 'choice'):
+            n += 1
+            try:
+                if member == 'record':
+                    m = rec_t.clone()
+                    m['a'] = 1
+                    change = lambda x: x.__setitem__('b', 2)
+                elif member == 'collection':
+                    m = univ.SequenceOf(componentType=univ.Integer())
+                    m.extend([1, 2, 3])
+                    change = lambda x: x.reverse()
+                else:
+                    m = univ.Choice(componentType=namedtype.NamedTypes(namedtype.NamedType('i', univ.Integer()),
+                                                                       namedtype.NamedType('s', univ.OctetString())))
+                    m['i'] = 5
+                    change = lambda x: x.__setitem__('s', b'x')
+                o = cls(componentType=univ.Any())
+                o.append(m)
+                before = der(o)
+                c = o.clone(cloneValueFlag=True)
+                change(c[0])
+                if der(o) != before:
+                    fails.append(rec('changing a %s member of the deep clone of a %s OF ANY changed the original' % (
+                        member, cls.__name__[:-2].upper()), history=['any-collection-clone'], container=cls.__name__, op='clone'))
+                    continue
+                c2 = o.clone(cloneValueFlag=True)
+                before2 = der(c2)
+                change(o[0])
+                if der(c2) != before2:
+                    fails.append(rec('changing a %s member of a %s OF ANY changed its deep clone' % (
+                        member, cls.__name__[:-2].upper()), history=['any-collection-clone'], container=cls.__name__, op='clone'))
+            except Exception as e:
+                fails.append(rec('any-collection clone (%s in %s): %s %s' % (member, cls.__name__, type(e).__name__, str(e)[:100]),
+                                 history=['any-collection-clone'], container=cls.__name__, op='clone'))
+    return fails, n
+
+
 def main():
     ap = argparse.ArgumentParser()
     ap.add_argument('checks')
@@ -632,6 +715,9 @@ def main():
     f2, n2 = novalue_checks()
     fails += f2
     n += n2
+    f4, n4 = any_collection_clone()
+    fails += f4
+    n += n4
     for grid in (sort_grid, setof_eq_grid, clone_grid):
         f3, n3 = grid(a.tier)
         fails += f3
